@@ -46,14 +46,31 @@ def OV.ordinal : OV → Nat
 def OV.discr : OV → Nat
   | .int _ => 0 | .float _ => 1 | .str _ => 2 | .bool _ => 3 | .ts _ => 4
 
+/-- `f64_as_exact_i64`: the integer a float is exactly equal to, if there is one in `i64` range
+(`(-TWO_POW_63..TWO_POW_63).contains(&f) && f.trunc() == f` then `f as i64`). -/
+def f64AsExactI64 (b : Nat) : Option Int :=
+  if fge b negTwoPow63 && flt b twoPow63 && feq (truncBits b) b then some (f64ToI64 b) else none
+
+/-- `cmp_i64_f64` (repaired code): an integer against a float as numbers, no rounding of the
+integer. NaN and everything from `2^63` on are above every `i64`, everything below `-2^63` is
+below; otherwise compare with the integer part and let the fractional part decide a tie. -/
+def cmpI64F64 (i : Int) (b : Nat) : Ordering :=
+  if isNaN b || fge b twoPow63 then .lt
+  else if flt b negTwoPow63 then .gt
+  else
+    let whole := truncBits b
+    match compare i (f64ToI64 whole) with
+    | .eq => (partialCmp whole b).getD .eq
+    | o => o
+
 def ovEq : OV → OV → Bool
   | .int a, .int b => a == b
   | .float a, .float b => ofEq a b
   | .str a, .str b => a == b
   | .bool a, .bool b => a == b
   | .ts a, .ts b => a == b
-  | .int a, .float b => feq (i64ToF64 a) b
-  | .float a, .int b => feq a (i64ToF64 b)
+  | .int a, .float b => cmpI64F64 a b == .eq
+  | .float b, .int a => cmpI64F64 a b == .eq
   | _, _ => false
 
 /-- lexicographic order of byte strings (`str::cmp` on UTF-8 is bytewise) -/
@@ -69,17 +86,95 @@ def ovCmp : OV → OV → Ordering
   | .str a, .str b => cmpBytes a b
   | .bool a, .bool b => compare a.toNat b.toNat
   | .ts a, .ts b => compare a b
+  | .int a, .float b => cmpI64F64 a b
+  | .float a, .int b => (cmpI64F64 b a).swap
+  | x, y => compare x.ordinal y.ordinal
+
+/-- what `Hash for OrderableValue` feeds: discriminant, then the payload words; a float that
+equals an integer is hashed as `Int64` of that integer (repaired code). -/
+def ovHashFeed : OV → List Int
+  | .int i => [0, i]
+  | .float b =>
+    match f64AsExactI64 b with
+    | some i => [0, i]
+    | none => 1 :: (ofHashFeed b).map Int.ofNat
+  | .str s => 2 :: (s.map (fun (x : Nat) => Int.ofNat x) ++ [255])     -- `str::hash` feeds bytes then 0xff
+  | .bool b => [3, if b then 1 else 0]
+  | .ts t => [4, t]
+
+/-! ### OrderableValue: the specification its `==`, `cmp` and `hash` are measured against
+
+Every value has an order key: its class (Bool < numbers < String < Timestamp; `Int64` and
+`Float64` share the class of numbers), for numbers the exact value times `2^1074` (an integer:
+every finite `f64` is a multiple of `2^-1074`; ±infinity fall outside every finite value by the
+same formula; all NaNs share one point above everything), for strings the bytes. Two values are
+equal iff their keys are equal, and are ordered as their keys are ordered lexicographically
+(`Props/C16.lean` proves that the model of the code computes exactly this). -/
+
+/-- position of a float on the number line, scaled by `2^1074`; all NaNs share one point above
+everything else -/
+def fRank (b : Nat) : Int := if isNaN b then 2 ^ 2100 else scaled b
+
+/-- an `i64` -/
+def inI64 (i : Int) : Prop := -(2 ^ 63 : Int) ≤ i ∧ i < 2 ^ 63
+
+/-- class (Bool, number, String, Timestamp), position on the number line (`· 2^1074`), bytes -/
+structure OKey where
+  cls : Nat
+  num : Int
+  str : List Nat
+  deriving DecidableEq
+
+def ovKey : OV → OKey
+  | .bool b => ⟨0, if b then 1 else 0, []⟩
+  | .int i => ⟨1, i * 2 ^ 1074, []⟩
+  | .float b => ⟨1, fRank b, []⟩
+  | .str s => ⟨3, 0, s⟩
+  | .ts t => ⟨4, t, []⟩
+
+def keyCmp (x y : OKey) : Ordering :=
+  (compare x.cls y.cls).then ((compare x.num y.num).then (cmpBytes x.str y.str))
+
+/-- the values of the type: `Int64` payloads are `i64`, `Float64` payloads are 64-bit patterns -/
+def OV.inRange : OV → Prop
+  | .int i => inI64 i
+  | .float b => b < 2 ^ 64
+  | _ => True
+
+/-! ### OrderableValue before the repair (kept for the regression witnesses)
+
+The pinned code compared `Int64` with `Float64` through the lossy `*a as f64` and hashed the
+variant's own discriminant and payload. -/
+namespace Old
+
+def ovEq : OV → OV → Bool
+  | .int a, .int b => a == b
+  | .float a, .float b => ofEq a b
+  | .str a, .str b => a == b
+  | .bool a, .bool b => a == b
+  | .ts a, .ts b => a == b
+  | .int a, .float b => feq (i64ToF64 a) b
+  | .float a, .int b => feq a (i64ToF64 b)
+  | _, _ => false
+
+def ovCmp : OV → OV → Ordering
+  | .int a, .int b => compare a b
+  | .float a, .float b => ofCmp a b
+  | .str a, .str b => cmpBytes a b
+  | .bool a, .bool b => compare a.toNat b.toNat
+  | .ts a, .ts b => compare a b
   | .int a, .float b => ofCmp (i64ToF64 a) b
   | .float a, .int b => ofCmp a (i64ToF64 b)
   | x, y => compare x.ordinal y.ordinal
 
-/-- what `Hash for OrderableValue` feeds: discriminant, then the payload words. -/
 def ovHashFeed : OV → List Int
   | .int i => [0, i]
   | .float b => 1 :: (ofHashFeed b).map Int.ofNat
-  | .str s => 2 :: (s.map (fun (x : Nat) => Int.ofNat x) ++ [255])     -- `str::hash` feeds bytes then 0xff
+  | .str s => 2 :: (s.map (fun (x : Nat) => Int.ofNat x) ++ [255])
   | .bool b => [3, if b then 1 else 0]
   | .ts t => [4, t]
+
+end Old
 
 end Grafeo.Val
 
